@@ -298,7 +298,7 @@ func lsmEnabled(x *seqExec) []string {
 		ops = append(ops, "P")
 	}
 	if x.j.Bool("bulk", false) {
-		ops = append(ops, "U", "Ux")
+		ops = append(ops, "U", "Ux", "N", "Nx")
 	}
 	if x.j.Bool("big", false) {
 		ops = append(ops, "B"+st.keys[0])
@@ -479,6 +479,32 @@ func lsmApply(x *seqExec, op string) bool {
 				pfx = op[1:]
 			}
 			if err := txn.Set([]byte(fmt.Sprintf("%s%d", pfx, i)), val(fmt.Sprintf("fill%d@%d|", i, ts), 400)); err != nil {
+				panic(err)
+			}
+		}
+		if st.normal {
+			if err := txn.Commit(); err != nil {
+				panic(err)
+			}
+		} else if err := txn.CommitAt(ts, nil); err != nil {
+			panic(err)
+		}
+		return true
+	case 'N': // one transaction deleting the 10 filler keys of U / U<prefix>
+		ts := st.nextTs
+		st.nextTs++
+		var txn *Txn
+		if st.normal {
+			txn = db.NewTransaction(true)
+		} else {
+			txn = db.NewTransactionAt(ts, true)
+		}
+		pfx := "f"
+		if len(op) > 1 {
+			pfx = op[1:]
+		}
+		for i := 0; i < 10; i++ {
+			if err := txn.Delete([]byte(fmt.Sprintf("%s%d", pfx, i))); err != nil {
 				panic(err)
 			}
 		}
